@@ -10,8 +10,8 @@ package main
 //     answers the first close of the socket with its own closeWithErr - every close of the case is followed by a
 //     second one from another goroutine, as on a UDP connection whose port refuses.
 //   result: done=<k>/<n> closed=<0|1> ctx=<0|1> final=<ok|BLOCKED>
-//     done  : goroutines whose every call returned within 1.5 s
-//     final : afterwards Status, Reserve, Status (read lock, write lock, read lock) all return within 1 s
+//     done  : goroutines whose every call returned within 2.5 s
+//     final : afterwards Status, Reserve, Status (read lock, write lock, read lock) all return within 1.5 s
 //     closed: Status().Closed;  ctx: the connection context is cancelled (the waiting exchanges are woken)
 
 import (
@@ -79,7 +79,7 @@ func connLockCase(f map[string]string) string {
 	go func() { wg.Wait(); close(all) }()
 	select {
 	case <-all:
-	case <-time.After(1500 * time.Millisecond):
+	case <-time.After(2500 * time.Millisecond):
 	}
 	nDone := done.Load()
 	time.Sleep(30 * time.Millisecond) // the read loop reacts to the closed socket
@@ -98,7 +98,7 @@ func connLockCase(f map[string]string) string {
 		if p.closed {
 			closed = "1"
 		}
-	case <-time.After(time.Second):
+	case <-time.After(1500 * time.Millisecond):
 		final = "BLOCKED"
 	}
 	ctx := 0
